@@ -105,7 +105,7 @@ class JWERegistry:
         if not isinstance(name, str) or name not in registry:
             raise UnsupportedAlgorithmError(f'Algorithm of "{name}" is not supported')
 
-        if self.allowed:
+        if self.allowed is not None:
             if name not in self.allowed:
                 raise UnsupportedAlgorithmError(f'Algorithm of "{name}" is not allowed')
         else:
